@@ -515,3 +515,96 @@ func checkDSDestinationPrinted(c *core.Ctx, t *InstTables) {
 		}
 	}
 }
+
+// checkEveryRowPrints (R04.35): every instruction of the decode tables has a disassembly. The
+// per-format printer functions build their text in arms selected by the opcode; a row whose
+// opcode falls through all arms comes back as the empty string. For every row the printer of its
+// format is followed with the opcode tests decided (opReach); the value it returns must not be
+// the empty string on any edge that remains reachable.
+func checkEveryRowPrints(c *core.Ctx, t *InstTables) {
+	st := c.Rule("R04.35", "every row of the decode tables prints as text: the printer function of the row's format (paired through the FormatType dispatch of InstPrinter.Print), followed for the row's opcode with its opcode tests decided, returns a string that is not the empty constant on any edge that stays reachable. A row that falls through every arm of its printer is disassembled to nothing: the FLAT atomics print as an empty line", 300)
+	pi := NewPkgInfo(c, instsPkg)
+	prt := c.SSAFunc(instsPkg, "InstPrinter.Print")
+	if pi.Pkg == nil || prt == nil {
+		c.Report(core.Finding{Rule: "R04.35", Kind: "anchor", Pkg: instsPkg, Func: "InstPrinter.Print", Detail: "anchor", Msg: "InstPrinter.Print not found"})
+		return
+	}
+	isFmt := isLoadOfField("FormatType")
+	isOpc := isLoadOfField("Opcode")
+	scope := pi.Pkg.Pkg.Scope()
+	printerOf := map[string]*ssa.Function{}
+	for _, n := range scope.Names() {
+		k, ok := scope.Lookup(n).(*types.Const)
+		if !ok || namedTypeName(k.Type()) != "insts.FormatType" {
+			continue
+		}
+		v, exact := constant.Int64Val(k.Val())
+		if !exact {
+			continue
+		}
+		for _, b := range opReach(prt, isFmt, v) {
+			for _, in := range b.Instrs {
+				if cc := core.CallOf(in); cc != nil {
+					if f := cc.StaticCallee(); f != nil && f.Pkg == pi.Pkg && strings.HasSuffix(f.Name(), "String") && len(f.Blocks) > 0 {
+						printerOf[n] = f
+					}
+				}
+			}
+		}
+	}
+	type key struct {
+		f  string
+		op int64
+	}
+	seen := map[key]bool{}
+	for _, r := range t.Rows {
+		p := printerOf[r.Format]
+		if p == nil || seen[key{r.Format, r.Opcode}] {
+			continue
+		}
+		seen[key{r.Format, r.Opcode}] = true
+		reach := map[*ssa.BasicBlock]bool{}
+		blocks, taken := opReachEdges(p, isOpc, r.Opcode)
+		for _, b := range blocks {
+			reach[b] = true
+		}
+		st.Instances++
+		c.MarkAnalysed(p)
+		empty := false
+		isEmpty := func(v ssa.Value) bool {
+			k, ok := v.(*ssa.Const)
+			return ok && k.Value != nil && k.Value.Kind() == constant.String && constant.StringVal(k.Value) == ""
+		}
+		for b := range reach {
+			ret, ok := b.Instrs[len(b.Instrs)-1].(*ssa.Return)
+			if !ok || len(ret.Results) != 1 {
+				continue
+			}
+			seenV := map[ssa.Value]bool{}
+			var walk func(v ssa.Value, d int)
+			walk = func(v ssa.Value, d int) {
+				if seenV[v] || d > 6 {
+					return
+				}
+				seenV[v] = true
+				if isEmpty(v) {
+					empty = true
+					return
+				}
+				if phi, ok := v.(*ssa.Phi); ok {
+					for i, e := range phi.Edges {
+						if taken[[2]*ssa.BasicBlock{phi.Block().Preds[i], phi.Block()}] {
+							walk(e, d+1)
+						}
+					}
+				}
+			}
+			walk(ret.Results[0], 0)
+		}
+		st.Ob(!empty)
+		if empty {
+			c.Report(core.Finding{Rule: "R04.35", Pkg: instsPkg, Func: core.FuncName(p), Detail: fmt.Sprintf("row-prints-empty:%s:%d", r.Format, r.Opcode), Pos: c.Position(r.Pos),
+				Msg: fmt.Sprintf("%s (%s opcode %d) falls through every arm of %s: it is disassembled to the empty string", strings.TrimSpace(r.Name), r.Format, r.Opcode, p.Name())})
+		}
+	}
+}
